@@ -24,8 +24,20 @@ import (
 )
 
 var methods = []string{"GET", "POST", "DELETE", "FOO"}
-var patterns = []string{"/a", "/b/c", "/b/d", "/u/{id}", "/v/{name}/x", "/static/long/path", "/b/{x}/e"}
-var reqPaths = []string{"/a", "/b/c", "/b/d", "/u/42", "/v/bob/x", "/static/long/path", "/b/zz/e"}
+// 0..6: mixed pool (static + a few {p}); 7..14: nested static routes sharing prefixes (inner nodes with
+// children); 15..23: one family of siblings below /a/ (a node whose children slice grows one by one).
+// All conflict-free, so the plain map keyed by (method, pattern) stays the exact reference.
+var patterns = []string{"/a", "/b/c", "/b/d", "/u/{id}", "/v/{name}/x", "/static/long/path", "/b/{x}/e",
+	"/foo", "/foo/bar", "/foo/bar/x", "/foo/baz", "/foo/bar/y", "/fo", "/foo/bar/x/deep", "/foobar",
+	"/a/a", "/a/b", "/a/c", "/a/d", "/a/e", "/a/f", "/a/g", "/a/h", "/a/i"}
+var reqPaths = []string{"/a", "/b/c", "/b/d", "/u/42", "/v/bob/x", "/static/long/path", "/b/zz/e",
+	"/foo", "/foo/bar", "/foo/bar/x", "/foo/baz", "/foo/bar/y", "/fo", "/foo/bar/x/deep", "/foobar",
+	"/a/a", "/a/b", "/a/c", "/a/d", "/a/e", "/a/f", "/a/g", "/a/h", "/a/i"}
+
+const (
+	nestedFirst, nestedLast = 7, 14
+	sibFirst, sibLast       = 15, 23
+)
 
 type key struct{ m, p int }
 
@@ -44,7 +56,7 @@ func tagOf(r *fox.Route) (uint64, bool) {
 }
 
 func keyOf(method, pattern string) key {
-	k := key{-1, -1}
+	k := key{99, 99} // unknown (only a corrupted router can show it): never equal to a model key
 	for i, m := range methods {
 		if m == method {
 			k.m = i
@@ -142,6 +154,7 @@ type world struct {
 	handles []handle
 	blocked []chan struct{} // lock probes still waiting for Router.mu
 	lastErr error           // error of the last transaction write
+	dead    string          // the implementation panicked (not ErrSettledTxn): stop the history here
 }
 
 var errBody = errors.New("c04: function returned an error")
@@ -239,7 +252,7 @@ type kv struct {
 	tag uint64
 }
 
-func fullObs(all iter.Seq2[string, *fox.Route], has func(key) bool, length int, pool []key) string {
+func fullObs(all iter.Seq2[string, *fox.Route], has func(key) bool, length int, pool []key, serve func(key) (uint64, bool)) string {
 	var kvs []kv
 	for m, r := range all {
 		t, _ := tagOf(r)
@@ -258,7 +271,12 @@ func fullObs(all iter.Seq2[string, *fox.Route], has func(key) bool, length int, 
 	for i, k := range pool {
 		hs[i] = hx.Bool(has(k))
 	}
-	return fmt.Sprintf("(ROFull %s %s %d)", hx.ListOf(kvs, func(e kv) string { return "(" + e.k.coq() + "," + hx.N(e.tag) + ")" }), hx.List(hs), length)
+	sv := make([]string, len(pool))
+	for i, k := range pool {
+		t, ok := serve(k)
+		sv[i] = hx.Opt(ok, hx.N(t))
+	}
+	return fmt.Sprintf("(ROFull %s %s %d %s)", hx.ListOf(kvs, func(e kv) string { return "(" + e.k.coq() + "," + hx.N(e.tag) + ")" }), hx.List(hs), length, hx.List(sv))
 }
 
 func optTag(t uint64, ok bool) string { return "(ROTag " + hx.Opt(ok, hx.N(t)) + ")" }
@@ -301,7 +319,16 @@ func (w *world) routerRead(r rop) string {
 		}
 	}
 	it := f.Iter()
-	return fullObs(it.All(), func(k key) bool { return f.Has(methods[k.m], patterns[k.p]) }, f.Len(), w.pool)
+	return fullObs(it.All(), func(k key) bool { return f.Has(methods[k.m], patterns[k.p]) }, f.Len(), w.pool,
+		func(k key) (uint64, bool) { // an actual request: status and identity of the handler that ran
+			rec := httptest.NewRecorder()
+			f.ServeHTTP(rec, mkReq(k))
+			if rec.Code != 200 {
+				return 0, false
+			}
+			t, err := strconv.ParseUint(rec.Header().Get("X-Tag"), 10, 64)
+			return t, err == nil
+		})
 }
 
 func (w *world) txnRead(h handle, r rop) string {
@@ -322,7 +349,12 @@ func (w *world) txnRead(h handle, r rop) string {
 			}
 			return optTag(0, false)
 		}
-		return fullObs(it.All(), hasIt, -1, w.pool)
+		return fullObs(it.All(), hasIt, -1, w.pool, func(k key) (uint64, bool) {
+			for _, rte := range it.Reverse(one(methods[k.m]), "", reqPaths[k.p]) {
+				return tagOf(rte)
+			}
+			return 0, false
+		})
 	}
 	t := h.txn
 	m, p := methods[r.k.m], patterns[r.k.p]
@@ -347,18 +379,43 @@ func (w *world) txnRead(h handle, r rop) string {
 		}
 	}
 	it := t.Iter()
-	return fullObs(it.All(), func(k key) bool { return t.Has(methods[k.m], patterns[k.p]) }, t.Len(), w.pool)
+	return fullObs(it.All(), func(k key) bool { return t.Has(methods[k.m], patterns[k.p]) }, t.Len(), w.pool,
+		func(k key) (uint64, bool) {
+			req := mkReq(k)
+			c := fox.NewTestContextOnly(httptest.NewRecorder(), req)
+			rte, cc, _ := t.Lookup(c.Writer(), req)
+			if cc != nil {
+				cc.Close()
+			}
+			return tagOf(rte)
+		})
 }
 
 const lockWait = 40 * time.Millisecond
 const longWait = 3 * time.Second
 
-// runs fn in a goroutine; reports whether it returned within d
+func clean(s string) string {
+	s = strings.ReplaceAll(strings.ReplaceAll(s, "*)", "* )"), "(*", "( *")
+	if len(s) > 300 {
+		s = s[:300]
+	}
+	return strings.ReplaceAll(s, "\n", " ")
+}
+
+// runs fn in a goroutine; reports whether it returned within d. A panic of fn is re-raised in the caller.
 func within(d time.Duration, fn func()) (done chan struct{}, ok bool) {
 	done = make(chan struct{})
-	go func() { defer close(done); fn() }()
+	var pv any
+	go func() {
+		defer close(done)
+		defer func() { pv = recover() }()
+		fn()
+	}()
 	select {
 	case <-done:
+		if pv != nil {
+			panic(pv)
+		}
 		return done, true
 	case <-time.After(d):
 		return done, false
@@ -374,7 +431,9 @@ func (w *world) runBstep(b bstep, expectFree bool) (obs string) {
 				obs = "OPanicSettled"
 				return
 			}
-			panic(p)
+			// any other panic is the implementation's (e.g. a corrupted tree): a failing case, not a harness crash
+			w.dead = clean(fmt.Sprint(p))
+			obs = "(* implementation panicked: " + w.dead + " *) ONoHandle"
 		}
 	}()
 	wait := lockWait
@@ -451,9 +510,17 @@ func (w *world) runBstep(b bstep, expectFree bool) (obs string) {
 	}
 	// RRead: a different goroutine looks at the router
 	var o string
+	var pv any
 	done := make(chan struct{})
-	go func() { defer close(done); o = w.routerRead(b.r) }()
+	go func() {
+		defer close(done)
+		defer func() { pv = recover() }()
+		o = w.routerRead(b.r)
+	}()
 	<-done
+	if pv != nil {
+		panic(pv)
+	}
 	return "(OR " + o + ")"
 }
 
@@ -502,7 +569,8 @@ func (w *world) runStep(s step, writerOpen bool) (obs []string) {
 					obs = append(obs, "OPanicSettled")
 					fin = "OFinPanicSettled"
 				} else {
-					fin = fmt.Sprintf("(* unexpected panic %v *) OFinBlocked", p)
+					w.dead = clean(fmt.Sprint(p))
+					fin = "(* implementation panicked: " + w.dead + " *) OFinBlocked"
 				}
 			}
 		}()
@@ -931,7 +999,7 @@ func execute(steps []step, pool []key) (obs [][]string, cut int) {
 			}
 		}
 		blockedNow := o[len(o)-1] == "OFinBlocked" || (o[0] == "OBlocked" && openW < 0)
-		if blockedNow { // the implementation did not release / acquire the lock: stop here
+		if blockedNow || w.dead != "" { // lock not released / acquired, or the implementation panicked: stop here
 			return obs, i + 1
 		}
 	}
